@@ -41,8 +41,7 @@ def packReads (N V nR ib i j : Nat) : List Nat :=
     (i + ii) * N + j + vv * V + l
 
 /-- `_transpose_dispatch<T,innerBlock,outerBlock>(pack_a, pack_out)`: `for j<ob for i<ib: out[j*ib+i] = a[i*ob+j]` -/
-def leafWrites (pa : Nat → α) (ib ob : Nat) : List (Nat × α) :=
-  (List.range ob).flatMap fun jj => (List.range ib).map fun ii => (jj * ib + ii, pa (ii * ob + jj))
+def leafWrites (pa : Nat → α) (ib ob : Nat) : List (Nat × α) := plainWrites id pa ib ob
 
 /-- "Unpack": `for jj<outerBlock for vv<numSIMDCols: _vec.load(&pack_out[jj*innerBlock+vv*V]); _vec.store(&out[(j+jj)*M+i+vv*V])` -/
 def unpackWrites (po : Nat → α) (M V nC ib ob i j : Nat) : List (Nat × α) :=
